@@ -213,6 +213,7 @@ def digraph_flower(rng, max_routes=3, wmax=5, max_rep=2, float_w=False, zero_pet
     flow = _flow_from_routes(routes, weights)
     for e in order:
         flow.setdefault(e, 0)
+    rng.shuffle(order)        # adjacency (successor) order must not be backbone-first
     nodes = []
     for a, b in order:
         for x in (a, b):
@@ -311,6 +312,7 @@ def digraph_cyclic(rng, max_nodes=5, max_edges=6, max_routes=3, wmax=5, max_rep=
     weights = [_w(rng, wmax, float_w) for _ in routes]
     flow = _flow_from_routes(routes, weights)
     order = [e for e in order if e in flow]
+    rng.shuffle(order)
     nodes = []
     for u, v in order:
         for x in (u, v):
@@ -411,6 +413,9 @@ def subpath_constraints(rng, g, max_c=2, contiguous_only=False):
             if e not in seen:
                 seen.append(e)
         out.append([list(e) for e in seen])
+    if out and g.get("zero_flow_edges") and rng.random() < 0.6:
+        # a subset constraint may also name an edge no generating route uses
+        out[0] = out[0] + [list(e) for e in g["zero_flow_edges"][:1] if list(e) not in out[0]]
     if out and rng.random() < 0.2:
         out.append([list(e) for e in out[0]])   # duplicated constraint
     return out
